@@ -271,12 +271,14 @@ func (s *Service) UnmarshalJSON(data []byte) error {
 	s.active = NewLoadBalancer(activeTargets)
 	s.active.MarkAllHealthy()
 
-	rolloutTargets, err := NewTargetList(ms.RolloutTargets, ms.TargetOptions)
-	if err != nil {
-		return err
+	if len(ms.RolloutTargets) > 0 {
+		rolloutTargets, err := NewTargetList(ms.RolloutTargets, ms.TargetOptions)
+		if err != nil {
+			return err
+		}
+		s.rollout = NewLoadBalancer(rolloutTargets)
+		s.rollout.MarkAllHealthy()
 	}
-	s.rollout = NewLoadBalancer(rolloutTargets)
-	s.rollout.MarkAllHealthy()
 
 	return s.initialize()
 }
